@@ -354,12 +354,16 @@ class _ClassLoss(OpDef):
         # labels out of range; labels that are not one class index per sample (PyTorch: "0D or 1D target tensor expected",
         # "Expected input batch_size to match target batch_size")
         return [{"n": 2, "c": 2, "labels": [0, 2], "via": "F"}, {"n": 2, "c": 2, "labels": [0, -3], "via": "F"},
+                {"n": 2, "c": 3, "labels": [0, -1], "via": "F"}, {"n": 2, "c": 2, "labels": [-2, 1], "via": "M", "red": "mean"},   # negative indices must not wrap around
+                {"n": 2, "c": 2, "labels": [1, 0], "via": "F", "extra_dim": 2},     # (N, C, d) scores with (N,) labels
                 {"n": 2, "c": 2, "labels": [[1], [0]], "via": "F"}, {"n": 2, "c": 3, "labels": [[1], [0]], "via": "M", "red": "mean"},
                 {"n": 2, "c": 2, "labels": [[1, 0]], "via": "F"}, {"n": 2, "c": 2, "labels": [1], "via": "M", "red": "sum"},
                 {"n": 2, "c": 2, "labels": [1, 0, 1], "via": "F"}, {"n": 1, "c": 2, "labels": [1, 0], "via": "M", "red": "none"},
                 {"n": 2, "c": 2, "labels": [1, 0], "via": "M", "red": "avg"}]
 
     def inputs(self, args):
+        if "extra_dim" in args:
+            return [Inp("p", (args["n"], args["c"], args["extra_dim"]))]
         return [Inp("p", (args["n"], args["c"]))]
 
     def forward(self, args, ts, extra):
